@@ -8,7 +8,7 @@ from .common import h, KNOWN
 from .model import val_to_json, val_from_json, val_repr
 
 PID = "C02"
-RULE = ("random modules (Hypothesis) plus the systematic boundary catalogue (integer widths, tag numbers, sizes, "
+RULE = ("one evaluation = one (value, syntax) comparison; random modules (Hypothesis) plus the systematic boundary catalogue (integer widths, tag numbers, sizes, "
         "alphabets, >127 enumerations, >63 additions); every value is encoded by the library in DER, canonical UPER "
         "and canonical OER and compared byte for byte with independent reference encoders; non-trivial = encoding "
         ">= 2 octets and type is constrained/tagged/structured; distinct by (type, value, syntax)")
@@ -116,6 +116,9 @@ def run_case(sess, mod, tname, t, v, feats, acc):
             probs.append(("bytes." + s, "%s bytes differ at offset %d (lengths %d/%d)\n  library  : %s\n  reference: %s" % (
                 s, i, len(g), len(w), g.hex()[:300] + ("..." if len(g) > 150 else ""),
                 w.hex()[:300] + ("..." if len(w) > 150 else ""))))
+    # one evaluation = one (value, syntax) byte comparison; the generic worker counts one per value
+    compared = sum(1 for s in want if reply.get(s) not in ("nocodec", None))
+    acc.evaluations += max(0, compared - 1)
     return probs, classes, nt, replay
 
 
